@@ -237,10 +237,9 @@ def _refusal(db, M, f, callee_clean):
     return True, None
 
 
-def _tables(db, r4):
+def priority_rule(db, r4):
     cst = enum_values(db, S + 'CstType')
     kinds = {k: v for k, v in cst.items() if not k.endswith('_')}
-    # priority
     hp = next((f for f in db.functions if f.name.endswith('::HasPriorityOver')), None)
     if hp is None:
         r4.broken('anchor vanished: HasPriorityOver')
@@ -261,6 +260,12 @@ def _tables(db, r4):
                 r4.ok('HasPriorityOver', '%d pairs of kinds' % (len(kinds) ** 2), '%s:%d' % (hp.file, hp.line))
         except OutOfFragment as e:
             r4.broken('HasPriorityOver outside the fragment: %s' % e)
+
+
+def _tables(db, r4):
+    cst = enum_values(db, S + 'CstType')
+    kinds = {k: v for k, v in cst.items() if not k.endswith('_')}
+    priority_rule(db, r4)
     fl = next((f for f in db.functions if f.name.endswith('::FirstLetterOf')), None)
     gt = db.fn('ccl::tools::CstNameGenerator::GetTypeForName')
     nc = db.fn('ccl::tools::CstNameGenerator::IsNameCorrect')
